@@ -19,12 +19,15 @@ VTa(c, es) == [k |-> "ta", c |-> c, es |-> es] \* c: constructor name, es: seque
 VMap(es)   == [k |-> "map", es |-> es]         \* es: sequence of [mk |-> key, mv |-> value]
 VSet(es)   == [k |-> "set", es |-> es]
 VArr(es)   == [k |-> "arr", es |-> es]
+VHole      == [k |-> "hole"]                   \* only as an element of an array: an index that is not there (sparse array); reads as undefined
 VObjC(c, ps) == [k |-> "obj", c |-> c, ps |-> ps] \* ps: sequence of [key |-> string, v |-> value], own enumerable props in order
 VObj(ps)   == VObjC("plain", ps)
 P(key, v)  == [key |-> key, v |-> v]
 E(mk, mv)  == [mk |-> mk, mv |-> mv]
 
-IsNullish(v) == v.k \in {"null", "undef"}
+IsNullish(v) == v.k \in {"null", "undef", "hole"}
+\* what reading the element gives
+Deh(v) == IF v.k = "hole" THEN VUndef ELSE v
 IsObjLike(v) == v.k \in {"obj", "date", "map", "set", "ta"}   \* typeof "object", non-null, not an array
 
 \* own enumerable string-keyed properties (Date/Map/Set/typed arrays of length 0 have none)
